@@ -4,10 +4,18 @@
 (* event per step; every C06/C07/C08/C09 clause is evaluated at every step.                          *)
 EXTENDS SessionMon, Json, IOUtils
 Traces == JsonDeserialize(IOEnv.TRACE_FILE)
+CONSTANT Focus        \* property whose clauses are judged ("ALL": every clause); clauses of other properties are reported as notes
 VARIABLES tid, l, m
+Mine == {x \in m.bad : Focus = "ALL" \/ x[1] \in {Focus, "harness"}}
+(* A delivered V3 message carries reference-evaluated observations (obs: packet type nibble, payload length, SHA-256 proof   *)
+(* under the key the client presented).  Whether it is a GENUINE handshake reply is decided here, not by the harness:            *)
+(* type 1, exactly 64 bytes, proof valid.                                                                                         *)
+Ev(e) == IF e.e = "deliver" /\ Ver = 3 /\ e.m = "HSR" THEN [e EXCEPT !.gen = e.obs.ty = 1 /\ e.obs.ln = 64 /\ e.obs.proof] ELSE e
 TInit == tid \in 1..Len(Traces) /\ l = 1 /\ m = MonInit
-TNext == /\ l <= Len(Traces[tid].events) /\ m.bad = {}
-         /\ m' = MonStep(m, Traces[tid].events[l]) /\ l' = l + 1 /\ UNCHANGED tid
-Done == l = Len(Traces[tid].events) + 1 \/ m.bad # {}
-Judge == Done => PrintT(<<"DONE", tid, IF m.bad = {} THEN "ok" ELSE (CHOOSE x \in m.bad : TRUE) \o " @event " \o ToString(l - 1)>>)
+TNext == /\ l <= Len(Traces[tid].events) /\ Mine = {}
+         /\ m' = MonStep(m, Ev(Traces[tid].events[l])) /\ l' = l + 1 /\ UNCHANGED tid
+Done == l = Len(Traces[tid].events) + 1 \/ Mine # {}
+Clause(x) == x[1] \o ": " \o x[2]
+Judge == Done => /\ PrintT(<<"DONE", tid, IF Mine = {} THEN "ok" ELSE Clause(CHOOSE x \in Mine : TRUE) \o " @event " \o ToString(l - 1)>>)
+                 /\ (m.bad \ Mine # {} => PrintT(<<"OTHER", tid, Clause(CHOOSE x \in m.bad \ Mine : TRUE)>>))
 =======================================================================
